@@ -41,20 +41,31 @@ let str_of_part = function
 
 let () =
   let cur_id = ref "" and cur_n = ref 0 and cur_w = ref false in
-  let ds = ref [] and qs = ref [] in
+  let ds = ref [] and qs = ref [] and fs = ref [] and kind = ref "C" and cur_uf = ref false in
   (try
      while true do
        let line = input_line stdin in
        match split_ws line with
        | [] -> ()
        | "C" :: id :: n :: w :: _ ->
-           cur_id := id; cur_n := int_of_string n; cur_w := (w = "1"); ds := []; qs := []
+           kind := "C"; cur_id := id; cur_n := int_of_string n; cur_w := (w = "1"); ds := []; qs := []
+       | "G" :: id :: n :: w :: uf :: _ ->
+           kind := "G"; cur_id := id; cur_n := int_of_string n; cur_w := (w = "1"); cur_uf := (uf = "1"); ds := []; fs := []
+       | "F" :: r -> let (f, rest) = parse_form r in if rest <> [] then failwith "fact: trailing"; fs := f :: !fs
        | "D" :: r -> ds := parse_cond r :: !ds
        | "Q" :: r -> qs := parse_cond r :: !qs
        | "E" :: _ ->
-           let (part, rows) = run_case (nat_of_int !cur_n) !cur_w (List.rev !ds) (List.rev !qs) in
-           let rows_s = String.concat " " (List.map (fun (m, s) -> str_of_res m ^ ":" ^ str_of_res s) rows) in
-           Printf.printf "%s|%s|%s\n" !cur_id (str_of_part part) rows_s
+           if !kind = "C" then begin
+             let ((part, partidx), rows) = run_case (nat_of_int !cur_n) !cur_w (List.rev !ds) (List.rev !qs) in
+             let rows_s = String.concat " " (List.map (fun (m, s) -> str_of_res m ^ ":" ^ str_of_res s) rows) in
+             Printf.printf "%s|%s|%s|%s\n" !cur_id (str_of_part part) (str_of_part partidx) rows_s
+           end else begin
+             let ob = function None -> "-" | Some true -> "1" | Some false -> "0" in
+             match run_diag (nat_of_int !cur_n) !cur_w !cur_uf (List.rev !fs) (List.rev !ds) with
+             | None -> Printf.printf "%s|V\n" !cur_id
+             | Some d -> Printf.printf "%s|%s%s%s%s%s\n" !cur_id (ob d.f_consistent) (ob d.bb_consistent)
+                           (ob d.bb_w_consistent) (ob d.c_consistent) (ob d.c_infinity_increase)
+           end
        | t :: _ -> failwith ("driver: bad line tag " ^ t)
      done
    with End_of_file -> ());
